@@ -582,6 +582,8 @@ class UnytDomain:
             return self.null_unit(it)
         if fq == "unyt._unit_lookup_table.default_unit_symbol_lut":
             return self.default_lut(it)
+        if name == "NUMPY_VERSION":
+            return SNewVersion()
         if fq == "unyt.array._COPY_IF_NEEDED":
             return None          # assumed: NumPy >= 2 (the installed one); see ASSUMED['numpy2']
         if fq in ("unyt.array.delta_degC", "unyt.array.delta_degF",
@@ -788,6 +790,18 @@ class UnytDomain:
                 u.fields["base_value"] = Fraction(1) if name == "delta_degC" else Fraction(5, 9)
             setattr(it, key, u)
         return getattr(it, key)
+
+
+class SNewVersion(SV):
+    """packaging Version of the installed NumPy: assumed newer than every version the code
+    compares it with (ASSUMED['numpy2'])"""
+
+    def sv_compare(self, it, op, other, reflected):
+        if op in (">=", ">"):
+            return True
+        if op in ("<", "<=", "=="):
+            return False
+        return NotImplemented
 
 
 class SuperProxy(SV):
@@ -1403,6 +1417,7 @@ assumed("numpy2", "module-level NumPy version switches are resolved for NumPy >=
 assumed("no-dask", "sys.modules holds none of the optional array libraries (dask): the dask "
         "short-circuit of __array_ufunc__ is outside the model")
 EXTERNAL_CALLS = {
+    "packaging.version.Version": lambda it, *a: Opaque("version"),
     "collections.OrderedDict": _ordered_dict,
     "sympy.sympify": _sympify,
     "math.isclose": _math_isclose,
